@@ -369,7 +369,7 @@ class Negative(Term):
         return self.term.is_aggregate
 
     def get_sql(self, ctx: SqlContext) -> str:
-        term_sql = self.term.get_sql(ctx)
+        term_sql = self.term.get_sql(ctx.copy(with_alias=False))
         compound = isinstance(self.term, (ArithmeticExpression, Criterion)) and not isinstance(
             self.term, (Function, Field)
         )
@@ -752,7 +752,8 @@ class Tuple(Criterion):
             yield from value.nodes_()
 
     def get_sql(self, ctx: SqlContext) -> str:
-        sql = "({})".format(",".join(term.get_sql(ctx) for term in self.values))
+        value_ctx = ctx.copy(with_alias=False)
+        sql = "({})".format(",".join(term.get_sql(value_ctx) for term in self.values))
         return format_alias_sql(sql, self.alias, ctx)
 
     @property
@@ -785,7 +786,8 @@ class Array(Tuple):
         if ctx.parameterizer is None or not ctx.parameterizer.should_parameterize(
             self.original_value
         ):
-            values = ",".join(term.get_sql(ctx) for term in self.values)
+            value_ctx = ctx.copy(with_alias=False)
+            values = ",".join(term.get_sql(value_ctx) for term in self.values)
 
             sql = "[{}]".format(values)
             if ctx.dialect in (Dialects.POSTGRESQL, Dialects.REDSHIFT):
@@ -850,12 +852,13 @@ class NestedCriterion(Criterion):
         self.nested = self.nested.replace_table(current_table, new_table)
 
     def get_sql(self, ctx: SqlContext) -> str:
+        operand_ctx = ctx.copy(with_alias=False)
         sql = "{left}{comparator}{right}{nested_comparator}{nested}".format(
-            left=self.left.get_sql(ctx),
+            left=self.left.get_sql(operand_ctx),
             comparator=self.comparator.value,
-            right=self.right.get_sql(ctx),
+            right=self.right.get_sql(operand_ctx),
             nested_comparator=self.nested_comparator.value,  # type:ignore[attr-defined]
-            nested=self.nested.get_sql(ctx),
+            nested=self.nested.get_sql(operand_ctx),
         )
 
         if ctx.with_alias:
@@ -1042,10 +1045,11 @@ class PeriodCriterion(RangeCriterion):
         self.end = self.end.replace_table(current_table, new_table)
 
     def get_sql(self, ctx: SqlContext) -> str:
+        operand_ctx = ctx.copy(with_alias=False)
         sql = "{term} FROM {start} TO {end}".format(
-            term=self.term.get_sql(ctx),
-            start=self.start.get_sql(ctx),
-            end=self.end.get_sql(ctx),
+            term=self.term.get_sql(operand_ctx),
+            start=self.start.get_sql(operand_ctx),
+            end=self.end.get_sql(operand_ctx),
         )
         return format_alias_sql(sql, self.alias, ctx)
 
@@ -1079,7 +1083,7 @@ class BitwiseAndCriterion(Criterion):
 
     def get_sql(self, ctx: SqlContext) -> str:
         sql = "({term} & {value})".format(
-            term=self.term.get_sql(ctx),
+            term=self.term.get_sql(ctx.copy(with_alias=False)),
             value=self.value,
         )
         return format_alias_sql(sql, self.alias, ctx)
@@ -1119,8 +1123,8 @@ class NullCriterion(Criterion):
 
 class ComplexCriterion(BasicCriterion):
     def get_sql(self, ctx: SqlContext) -> str:
-        left_ctx = ctx.copy(subcriterion=self.needs_brackets(self.left))
-        right_ctx = ctx.copy(subcriterion=self.needs_brackets(self.right))
+        left_ctx = ctx.copy(subcriterion=self.needs_brackets(self.left), with_alias=False)
+        right_ctx = ctx.copy(subcriterion=self.needs_brackets(self.right), with_alias=False)
         sql = "{left} {comparator} {right}".format(
             comparator=self.comparator.value,
             left=self.left.get_sql(left_ctx),
@@ -1350,7 +1354,7 @@ class Not(Criterion):
         yield from self.term.nodes_()
 
     def get_sql(self, ctx: SqlContext) -> str:
-        not_ctx = ctx.copy(subcriterion=True)
+        not_ctx = ctx.copy(subcriterion=True, with_alias=False)
         sql = "NOT {term}".format(term=self.term.get_sql(not_ctx))
         return format_alias_sql(sql, self.alias, ctx)
 
@@ -1406,7 +1410,7 @@ class All(Criterion):
         self.term = self.term.replace_table(current_table, new_table)
 
     def get_sql(self, ctx: SqlContext) -> str:
-        sql = "{term} ALL".format(term=self.term.get_sql(ctx))
+        sql = "{term} ALL".format(term=self.term.get_sql(ctx.copy(with_alias=False)))
         return format_alias_sql(sql, self.alias, ctx)
 
 
@@ -1539,7 +1543,9 @@ class AggregateFunction(Function):
 
     def get_filter_sql(self, ctx: SqlContext) -> str:  # type:ignore[return]
         if self._include_filter:
-            criterions = Criterion.all(self._filters).get_sql(ctx)  # type:ignore[attr-defined]
+            criterions = Criterion.all(self._filters).get_sql(  # type:ignore[attr-defined]
+                ctx.copy(with_alias=False)
+            )
             return f"WHERE {criterions}"
         # TODO: handle case of `not self._include_filter`
 
@@ -1611,6 +1617,7 @@ class AnalyticFunction(AggregateFunction):
         )
 
     def get_partition_sql(self, ctx: SqlContext) -> str:
+        ctx = ctx.copy(with_alias=False)
         terms = []
         if self._partition:
             terms.append(
